@@ -141,7 +141,8 @@ def pregate_region(prog, entries, gate, fold=None, stop=()):
 
 # external callees that take &mut self but only hand out a sub-reference (no store)
 PURE_MUT_EXTERNALS = (
-    "IndexMut>::index_mut", "index_mut", "DerefMut>::deref_mut", "deref_mut", "AsMut>::as_mut", "as_mut",
+    "ops::IndexMut::index_mut", "ops::DerefMut::deref_mut", "convert::AsMut::as_mut", "iter::IntoIterator::into_iter",
+    "iter::Iterator::next", "borrow::BorrowMut::borrow_mut", "IndexMut>::index_mut", "index_mut", "DerefMut>::deref_mut", "deref_mut", "AsMut>::as_mut", "as_mut",
     "HashMap::get_mut", "get_mut", "iter_mut", "values_mut", "as_mut_slice", "Option::as_mut", "Cursor::new",
     "Cursor::get_mut", "Cursor::get_ref", "Cursor::into_inner", "split_at_mut", "IntoIterator>::into_iter",
     "Iterator>::next", "Option::as_deref_mut", "Result::as_mut", "borrow_mut",
